@@ -217,6 +217,19 @@ class ContentE3(C03.E3):
             return [(self.add(w2, _mk('cc', (v[1], sd, ln))) if v[0] == 'sym' else w2, v) for w2, v in out]
         return out
 
+    def havoc_value(self, I, w, ci, target, old):
+        """user code that gets `&mut Autocompletion` may have written anywhere in the completion buffer it wraps"""
+        w2, nv = C03.E3.havoc_value(self, I, w, ci, target, old)
+        if old[0] == 'adt' and old[1] == 'autocomplete::Autocompletion':
+            buf = old[3][I.field_index(old[1], 'buffer')]
+            loc = self.where(w, buf)
+            ln = lin_of(buf[2]) if buf[0] == 'slc' else None
+            if loc is not None and ln is not None:
+                w2 = self.fx(w2, ('unkrange', loc[0], loc[1], fm.add(loc[1], ln)))
+            elif buf[0] == 'slc':
+                w2 = self.fx(w2, ('unk', base_of(buf[1])))
+        return w2, nv
+
     def on_store(self, I, w, depth, place, v, stmt):
         w2 = C03.E3.on_store(self, I, w, depth, place, v, stmt)
         eff = None
